@@ -305,13 +305,22 @@ class Evaluator:
         elif k == "Guard":
             self.bind(pat["sub"], val, env)
 
+    def mkproj(self, val, seg):
+        """proj with `Option::map(o, f)~Some.0 == f(o~Some.0)` (same for Result::map / Ok.0) reduced."""
+        if isinstance(val, Tm) and val.k == "call" and len(val.a) == 3 and val.a[2].k in ("closure", "fnitem"):
+            if (seg == "Option::Some.0" and val.a[0] == "core::option::Option::<T>::map") or \
+                    (seg == "Result::Ok.0" and val.a[0] == "core::result::Result::<T, E>::map"):
+                if val.a[2].k == "closure" or val.a[2].a[0] in self.prog.bodies:
+                    return self.apply(val.a[2], [self.mkproj(val.a[1], seg)], 1)
+        return Tm("proj", (val, seg), val.n if isinstance(val, Tm) else None)
+
     def _proj(self, val, seg, pat, f):
         # constructing then destructuring the same variant cancels out
         if val.k == "adt" and val.a[1] == pat["variant"] and val.a[0] == pat["adt"]:
             for name, t in val.a[2]:
                 if name == f.get("name", str(f["idx"])):
                     return t
-        return Tm("proj", (val, seg), val.n)
+        return self.mkproj(val, seg)
 
     # ------------------------------------------------------------ expressions
     def ev(self, e, st, depth):
@@ -455,6 +464,7 @@ class Evaluator:
                     st.assigned.setdefault(vid, []).append(eff)
         if self.trace is not None:
             self.trace.append(Tm("call", (name,) + tuple(args), e))
+            self.explore_hof(name, fn, args, depth)
         if is_transparent_call(name, fn) and len(args) == 1:
             return args[0]
         norm = self.normalise_call(name, fn, args, e)
@@ -463,6 +473,73 @@ class Evaluator:
         if name in self.inline_local and name in self.prog.bodies and depth < self.max_depth:
             return self._apply_path(name, args, {}, depth, closure=False)
         return Tm("call", (name,) + tuple(args), e)
+
+    # ---- iterator items and higher-order calls -------------------------------------------------
+    ITER_PASS = ("filter", "skip", "take", "step_by", "skip_while", "take_while", "peekable", "rev", "cloned", "copied",
+                 "inspect", "by_ref", "fuse")
+
+    def item_of(self, t, depth=0):
+        """Term denoting one item produced by the iterator (or collection) term t."""
+        if isinstance(t, Tm) and t.k == "call" and len(t.a) >= 2 and depth < 12:
+            m = t.a[0].rsplit("::", 1)[-1]
+            isit = ("Iterator" in t.a[0]) or ("::iter::" in t.a[0])
+            if isit and m == "enumerate":
+                src = t.a[1]
+                if src.k == "call" and src.a[0].rsplit("::", 1)[-1] in ("iter", "into_iter", "iter_mut") and len(src.a) == 2:
+                    src = src.a[1]      # position in the container itself
+                return Tm("tuple", (Tm("call", ("<index>", src)), self.item_of(t.a[1], depth + 1)))
+            if isit and m == "map" and len(t.a) == 3:
+                return self.apply(t.a[2], [self.item_of(t.a[1], depth + 1)], depth + 1)
+            if isit and m in self.ITER_PASS:
+                return self.item_of(t.a[1], depth + 1)
+            if isit and m == "zip" and len(t.a) == 3:
+                return Tm("tuple", (self.item_of(t.a[1], depth + 1), self.item_of(t.a[2], depth + 1)))
+            if isit and m == "chain" and len(t.a) == 3:
+                return phi([self.item_of(t.a[1], depth + 1), self.item_of(t.a[2], depth + 1)])
+            if m in ("iter", "into_iter", "iter_mut") and len(t.a) == 2:
+                return self.item_of(t.a[1], depth + 1)
+        els = elements_of(t)
+        if els:
+            return phi(els)
+        return Tm("call", ("<item>", t))
+
+    HOF_ITEM = ("map", "filter", "flat_map", "filter_map", "for_each", "any", "all", "find", "position", "skip_while",
+                "take_while", "inspect", "find_map", "map_while", "max_by_key", "min_by_key")
+
+    def explore_hof(self, name, fn, args, depth):
+        """In trace mode: apply closure arguments of well-known higher-order functions to terms denoting what
+        they will receive, so that calls inside closures are traced with their parameters resolved."""
+        if self.trace is None or depth >= self.max_depth or not args:
+            return
+        m = (fn or name).rsplit("::", 1)[-1]
+        base = fn or name
+        clos = [(i, a) for i, a in enumerate(args) if isinstance(a, Tm) and a.k in ("closure", "fnitem") and (a.k == "closure" or a.a[0] in self.prog.bodies)]
+        if not clos:
+            return
+        recv = args[0]
+        params = None
+        if ("Iterator" in base or "::iter::" in base) and m in self.HOF_ITEM:
+            params = [self.item_of(recv)]
+        elif ("Iterator" in base) and m in ("fold", "try_fold") and len(args) == 3:
+            params = [Tm("loopvar", ("acc",)), self.item_of(recv)]
+        elif ("Iterator" in base) and m == "reduce":
+            params = [self.item_of(recv), self.item_of(recv)]
+        elif base.startswith("core::option::Option::<T>::") and m in ("map", "and_then", "filter", "map_or", "map_or_else", "is_some_and", "inspect"):
+            params = [self.mkproj(recv, "Option::Some.0")]
+        elif base.startswith("core::result::Result::<T, E>::") and m in ("map", "and_then", "is_ok_and", "inspect"):
+            params = [self.mkproj(recv, "Result::Ok.0")]
+        elif base.startswith("core::result::Result::<T, E>::") and m in ("map_err", "or_else", "unwrap_or_else"):
+            params = [Tm("proj", (recv, "Result::Err.0"))]
+        elif base.startswith("core::option::Option::<T>::") and m in ("or_else", "unwrap_or_else", "ok_or_else", "get_or_insert_with"):
+            params = []
+        elif base in self.prog.bodies:
+            return
+        if params is None:
+            return
+        for i, c in clos:
+            if i == 0:
+                continue
+            self.apply(c, params, depth + 1)
 
     def normalise_call(self, name, fn, args, e):
         # vec![a, b, c]
@@ -555,7 +632,9 @@ class Evaluator:
             src = iter_t.a[1]
         else:
             src = iter_t
-        item = Tm("call", ("<item>", src), e)
+        item = self.item_of(src if src is not iter_t else iter_t)
+        if item.k == "call" and item.a[0] == "<item>":
+            item = Tm("call", ("<item>", item.a[1]), e)
         # find the inner `match next(&mut iter) { None => break, Some(PAT) => BODY }`
         body_arm = None
         for x in T.walk(e["arms"][0]["body"]):
@@ -631,6 +710,38 @@ def _assigned_vars(e):
     return out
 
 
+def elements_of(t, depth=0):
+    """Element terms of a vector built by vec![..] and pushes (through phi/if/match joins); None if unknown."""
+    if not isinstance(t, Tm) or depth > 20:
+        return None
+    if t.k == "call" and t.a[0] == "<vec>":
+        return list(t.a[1:])
+    if t.k == "mutated":
+        eff = t.a[1]
+        prev = elements_of(t.a[0], depth + 1)
+        if prev is None:
+            return None
+        if isinstance(eff, Tm) and eff.k == "call" and eff.a[0].endswith("Vec::<T, A>::push") and len(eff.a) == 3:
+            return prev + [eff.a[2]]
+        if isinstance(eff, Tm) and eff.k == "call" and eff.a[0].endswith("Vec::<T, A>::insert") and len(eff.a) == 4:
+            return prev + [eff.a[3]]
+        return None
+    if t.k == "loopvar":
+        return []
+    if t.k in ("phi", "if", "match"):
+        parts = t.a if t.k == "phi" else ([t.a[1], t.a[2]] if t.k == "if" else [b for _, _, b in t.a[1]])
+        out = []
+        for x in parts:
+            e = elements_of(x, depth + 1)
+            if e is None:
+                return None
+            for y in e:
+                if y not in out:
+                    out.append(y)
+        return out
+    return None
+
+
 def _has_cparam(t):
     return any(x.k == "cparam" for x in subterms(t))
 
@@ -646,7 +757,7 @@ def _prefer_resolved(terms_):
     for t in terms_:
         key = id(t.n) if t.n is not None else id(t)
         group = by_node[key]
-        ncp = [sum(1 for y in subterms(x) if y.k == "cparam") for x in group]
+        ncp = [len({y.a for y in subterms(x) if y.k == "cparam"}) for x in group]
         keep = [x for x, n in zip(group, ncp) if n == min(ncp)]
         for x in keep:
             if id(x) not in seen and x in keep:
